@@ -19,7 +19,9 @@ import (
 //   G:host:path                       jar.Get(uri)
 //   X:host:path                       jar.Get(uri), then release every returned cookie (the documentation allows it)
 //   L                                 jar.Release()
-// Expiry is injected directly: p = one hour ago, f = in one hour, n = none (session cookie).
+//   W                                 wait (real time) until every `s` cookie has expired
+// Expiry is injected directly: p = one hour ago, f = in one hour, n = none (session cookie),
+// s = shortLife after the start of the case (S ops only; Set-Cookie has a granularity of seconds).
 
 type jarOp struct {
 	kind  byte
@@ -62,7 +64,7 @@ func parseJarOps(s string) (ops []jarOp, ok bool) {
 			return nil, false
 		}
 		op := jarOp{kind: ps[0][0], parts: ps[1:]}
-		want := map[byte]int{'S': 5, 'K': 3, 'R': 3, 'G': 2, 'X': 2, 'L': 0}
+		want := map[byte]int{'S': 5, 'K': 3, 'R': 3, 'G': 2, 'X': 2, 'L': 0, 'W': 0}
 		n, known := want[op.kind]
 		if !known || len(op.parts) != n {
 			return nil, false
@@ -71,7 +73,7 @@ func parseJarOps(s string) (ops []jarOp, ok bool) {
 		for i, p := range op.parts {
 			switch {
 			case op.kind == 'S' && i == 4:
-				if p != "n" && p != "p" && p != "f" {
+				if p != "n" && p != "p" && p != "f" && p != "s" {
 					return nil, false
 				}
 			case op.kind == 'R' && i == 2:
@@ -107,6 +109,8 @@ func mkCookie(name, value, path, exp string, now time.Time) *fasthttp.Cookie {
 		c.SetExpire(now.Add(-time.Hour))
 	case "f":
 		c.SetExpire(now.Add(time.Hour))
+	case "s":
+		c.SetExpire(now.Add(shortLife))
 	}
 	return c
 }
@@ -128,8 +132,24 @@ var respCookies []*fasthttp.Cookie
 // cookieHeaderSeen is the Cookie header of the last request the server handled.
 var cookieHeaderSeen string
 
+const (
+	shortLife = 300 * time.Millisecond // life of an `s` cookie, counted from the start of the case
+	shortSafe = 200 * time.Millisecond // everything before the first W must be over by then
+)
+
+// runJar runs a case; a case with a W that was too slow to reach it in time (machine under load) is run again.
 func runJar(ops []jarOp) string {
+	for try := 0; try < 5; try++ {
+		if obs, ok := runJarOnce(ops); ok {
+			return obs
+		}
+	}
+	return "slow"
+}
+
+func runJarOnce(ops []jarOp) (string, bool) {
 	now := time.Now()
+	waited := false
 	jar := &client.CookieJar{}
 	cl := client.New().SetDial(dialer).SetCookieJar(jar)
 	var obs []string
@@ -169,6 +189,15 @@ func runJar(ops []jarOp) string {
 		case 'L':
 			jar.Release()
 			obs = append(obs, "l")
+		case 'W':
+			if !waited {
+				if time.Since(now) > shortSafe {
+					return "", false
+				}
+				time.Sleep(time.Until(now.Add(shortLife + 50*time.Millisecond)))
+				waited = true
+			}
+			obs = append(obs, "w")
 		case 'R':
 			respCookies = respCookies[:0]
 			if p[2] != "-" {
@@ -199,9 +228,9 @@ func runJar(ops []jarOp) string {
 		}
 	}
 	if len(obs) == 0 {
-		return "-"
+		return "-", true
 	}
-	return strings.Join(obs, "|")
+	return strings.Join(obs, "|"), true
 }
 
 func jarOpsString(ops []jarOp) string {
